@@ -199,6 +199,27 @@ func (le *LinearEval) atomName(e ast.Expr, depth int) string {
 	return types.ExprString(e)
 }
 
+// ResolveSingleDef looks through a local that is assigned exactly once (and never has its address
+// taken) to the expression it was given; any other expression is returned unchanged.
+func ResolveSingleDef(info *types.Info, body *ast.BlockStmt, e ast.Expr) ast.Expr {
+	for i := 0; i < 4; i++ {
+		id, ok := Unparen(e).(*ast.Ident)
+		if !ok {
+			return e
+		}
+		v, ok := info.Uses[id].(*types.Var)
+		if !ok {
+			return e
+		}
+		def := (&LinearEval{Info: info, Body: body}).singleDef(v)
+		if def == nil {
+			return e
+		}
+		e = def
+	}
+	return e
+}
+
 // singleDef returns the defining expression of a variable that is assigned exactly once.
 func (le *LinearEval) singleDef(v *types.Var) ast.Expr {
 	var def ast.Expr
